@@ -200,6 +200,9 @@ Definition C01_commit (r_blind r_switch : bool) (g : cfg) (sg : seg) (sn : snap)
 (* An assignment to a never-loaded attribute (r_blind) makes SQLAlchemy flush an UPDATE statement; it
    counts as a flushed operation of the entity, so the strict predicate already tolerates it. *)
 Definition C01_prop : core_case -> bool := walk_case (C01_commit true false) no_rb.
+(* without the tolerance for assignments to attributes whose old value was not loaded: versioned column attributes
+   carry active_history, an assignment loads the old value first, so a same-value assignment is never a change *)
+Definition C01_prop_strict : core_case -> bool := walk_case (C01_commit false false) no_rb.
 Definition C01_prop_switch : core_case -> bool := walk_case (C01_commit true true) no_rb.
 
 (* ------------------------------------------------------------------ C02 *)
@@ -353,7 +356,7 @@ Definition C13_commit (r_blind : bool) (g : cfg) (sg : seg) (sn : snap) : bool :
                             (g_classes g))
           (sn_vt sn).
 
-Definition C13_prop : core_case -> bool := walk_case (C13_commit true) no_rb.
+Definition C13_prop : core_case -> bool := walk_case (C13_commit false) no_rb.
 
 (* ------------------------------------------------------------------ C10 *)
 Definition pair_eqb (a b : Z * list Z) : bool := (fst a =? fst b) && list_eqb Z.eqb (snd a) (snd b).
